@@ -164,6 +164,10 @@ pub struct Scenario {
     pub sched_sweep: usize,
     #[serde(default)]
     pub rc_pattern: Option<RcPattern>,
+    /// the n-th backend request of the FIRST qcow2_prep_io() fails; the call is
+    /// then repeated on the same device with the backend working again
+    #[serde(default)]
+    pub prep_fault: Option<usize>,
     /// the allocator's free hint (host cluster index) is put here after
     /// every open: reaches far host offsets with small images (hook H4)
     #[serde(default)]
@@ -288,6 +292,7 @@ pub struct Runner {
     pub next_wid: u32,
     pub outcome: Vec<String>,
     pub schedules: Vec<Vec<Choice>>,
+    pub prep_fault_done: bool,
     pub stuck: bool,
     pub panicked: bool,
     pub dev_ro: bool,
@@ -663,6 +668,7 @@ impl Runner {
             next_wid: 10,
             outcome: Vec::new(),
             schedules: Vec::new(),
+            prep_fault_done: false,
             stuck: false,
             panicked: false,
             dev_ro: top_ro,
@@ -722,7 +728,28 @@ impl Runner {
         }
         let dev = cur.unwrap();
         let world = self.world.clone();
-        let res = block_on(&world, 0, async { dev.qcow2_prep_io().await });
+        let mut prep_faulted = false;
+        if let (Some(k), false) = (self.sc.prep_fault, self.prep_fault_done) {
+            self.prep_fault_done = true;
+            let ord = {
+                let mut w = self.world.borrow_mut();
+                let ord = w.reqs.len() + k;
+                w.fault.by_ordinal.insert(ord, FaultMode::Err);
+                ord
+            };
+            self.ev(json!({"e":"FaultPlan","ord":ord}));
+            prep_faulted = true;
+        }
+        let mut res = block_on(&world, 0, async { dev.qcow2_prep_io().await });
+        if prep_faulted {
+            self.world.borrow_mut().fault.by_ordinal.clear();
+            self.ev(json!({"e":"FaultsOff"}));
+            if let Ok(Err(e)) = &res {
+                // the device has to stay usable: the same call again
+                self.ev(json!({"e":"Note","msg":format!("prep_io failed ({e:?}), repeated")}));
+                res = block_on(&world, 0, async { dev.qcow2_prep_io().await });
+            }
+        }
         match res {
             Ok(Ok(())) => {}
             Ok(Err(e)) => {
